@@ -58,8 +58,9 @@ type Stub struct {
 }
 
 type fnInfo struct {
-	idx map[ssa.Value]int
-	n   int
+	idx  map[ssa.Value]int
+	n    int
+	live *liveInfo
 }
 
 type Deferred struct {
@@ -178,11 +179,14 @@ type Engine struct {
 	pools    map[string]*Pool
 	init     []*Term // initial heap (globals etc.)
 
-	work    []*Path
-	done    []*Path
-	waiting map[string][]*Path
-	Merges  int
-	NoMerge bool
+	work       []*Path
+	done       []*Path
+	waiting    map[string][]*Path
+	Merges     int
+	NoMerge    bool
+	NoLiveness bool
+	Profile    map[string]int
+	ProfileN   map[string]int
 
 	Intrinsics    map[string]Intrinsic
 	InvokeHook    func(e *Engine, p *Path, tag uint64, method string, recv Value, ic *ICall) bool
@@ -989,6 +993,9 @@ func (e *Engine) mergePaths(g []*Path) *Path {
 		return g[0]
 	}
 	B := e.B
+	oldPhase := B.Phase
+	B.Phase = "join"
+	defer func() { B.Phase = oldPhase }()
 	res := g[0]
 	for _, p := range g[1:] {
 		// heap
@@ -1077,6 +1084,7 @@ func (e *Engine) ConfigKey(c *Ctx) string {
 
 func (e *Engine) park(p *Path) bool {
 	c := p.Cur
+	e.pruneDead(c)
 	return e.endCurrent(p, ParkRec{Pid: c.Pid, Key: e.ConfigKey(c), Ctx: c})
 }
 
@@ -1108,6 +1116,7 @@ func (e *Engine) runPath(p *Path) {
 				if e.waiting == nil {
 					e.waiting = map[string][]*Path{}
 				}
+				e.pruneDead(p.Cur)
 				k := e.joinKey(p)
 				e.waiting[k] = append(e.waiting[k], p)
 				return
@@ -1121,6 +1130,17 @@ func (e *Engine) runPath(p *Path) {
 			continue
 		}
 		instr := fr.Block.Instrs[fr.PC]
+		if e.Profile != nil {
+			n0 := e.B.NumTerms()
+			key := fr.Fn.Name() + ":" + instrPos(instr) + " " + instr.String()
+			ok := e.step(p, instr)
+			e.Profile[key] += e.B.NumTerms() - n0
+			e.ProfileN[key]++
+			if !ok {
+				return
+			}
+			continue
+		}
 		if !e.step(p, instr) {
 			return
 		}
